@@ -14,14 +14,19 @@ RULE = ("scenario trees {one group of 3, hard-link set, two groups, names of 230
         "mutating-call history of the real binary is recorded twice (must be identical), then for EVERY event k the run "
         "is repeated with the process SIGKILLed just before k, and with call k failing with each errno of {EIO, EXDEV} "
         "(quick) / {EIO, ENOSPC, EXDEV, EPERM, EOPNOTSUPP} (thorough); pairs of failures with EIO: k and the next one or two "
-        "calls (quick), every pair k1<k2 (thorough). "
+        "calls (quick), every pair k1<k2 (thorough). Several worker threads (RAYON_NUM_THREADS 2 / 4; three groups, one droppable file each; "
+        "remove, link, link --soft, dedupe, move by rename / by copy): for every file F and every step j of F's own call sequence the worker "
+        "that completed step j is suspended until all other workers are quiescent, alone and combined with every step of another file G "
+        "failing with each errno - once, or (ENOSPC in quick, every errno in thorough) from then on for every later call of the same "
+        "kind: all placements of one suspended worker relative to a complete, faulty run of the others. "
         "Invariant: no content digest disappears; retained files untouched; every processed path holds its original "
         "bytes at the path, or (crash / failed roll-back only) at the temporary sibling, or is completely replaced; never "
         "a partially written file at the path; after a failing call a warning names the unprocessed file and the "
         "'Processed N' count equals the replacements in place. distinct_nontrivial = distinct (scenario, op, k, fault) "
         "whose event k was actually reached.")
-ASSUMPTIONS = ["single-threaded dedupe (RAYON_NUM_THREADS=1) so that the call history is deterministic; determinism is "
+ASSUMPTIONS = ["the position-enumerated runs are single-threaded (RAYON_NUM_THREADS=1) so that the call history is deterministic; determinism is "
                "re-proved on every run (two recordings equal, prefixes of injected runs equal)",
+               "in the multi-threaded runs events are identified per file (j-th mutating call that names the file), which is deterministic because one file is handled by one worker; the relative order of the workers that are not suspended is left to the OS",
                "a kill 'after call k' is the same disk state as a kill 'before call k+1' because every mutating call is an event",
                "FICLONE is emulated by the shim as one atomic event on tmpfs/ext4 (no reflink file system in the sandbox)",
                "'open for write' of the lock probe counts as an event although it does not change the file"]
@@ -45,8 +50,26 @@ def prepare(tier):
     S.prepare()
 
 
+CONC_TREE = []
+for _g in range(3):
+    CONC_TREE += [{"p": "r/a%d/g%d_keep" % (_g, _g), "k": "file", "c": ["base", 3000 + _g, _g + 1]},
+                  {"p": "r/z%d/g%d_drop" % (_g, _g), "k": "file", "c": ["base", 3000 + _g, _g + 1]}]
+CONC_TAGS = ["g0_drop", "g1_drop", "g2_drop"]
+CONC_OPS = ["remove", "link", "softlink", "dedupe_emulated", "move_rename", "move_copy"]
+
+
 def cases(tier, seed):
-    return [{"scenario": s, "op": op, "tier": tier} for s in SCENARIOS for op in OPS]
+    out = [{"scenario": s, "op": op, "tier": tier} for s in SCENARIOS for op in OPS]
+    # several worker threads: one worker is suspended between two of its steps while the others run to completion,
+    # and one call of ANOTHER file fails (once, or from then on: a full disk stays full)
+    pairs = [("g0_drop", "g1_drop"), ("g1_drop", "g2_drop")] if tier == "quick" else \
+        [(a, b) for a in CONC_TAGS for b in CONC_TAGS if a != b]
+    for op in CONC_OPS:
+        for threads in (("2",) if tier == "quick" else ("2", "4")):
+            for pair in pairs:
+                for jh in range(8):     # (steps beyond the end of the file's history are dropped at evaluation)
+                    out.append({"kind": "concurrent", "op": op, "threads": threads, "tier": tier, "pair": list(pair), "jh": jh})
+    return out
 
 
 def op_args(op, sc, case):
@@ -100,7 +123,10 @@ def check_state(op, fault, second, sc, target, before, report, res, rec_events, 
             b = before[p]
             a = after.get(p)
             now = readable(p)
-            temps = [q for q in after if q.startswith(p + ".") and TMP.search(q) and after[q].get("sha") == b["sha"]]
+            # a temporary sibling: an entry of the same directory that was not there before and holds the bytes
+            # (whatever it is called)
+            temps = [q for q in after if q != p and os.path.dirname(q) == os.path.dirname(p) and q not in before
+                     and after[q].get("type") == "file" and after[q].get("sha") == b["sha"]]
             replaced = False
             if a is not None and a["type"] == "file" and a.get("sha") != b["sha"]:
                 out.append(("torn_file", "%s exists with different bytes (%s, %d bytes)" % (p, a.get("sha"), a.get("len", -1))))
@@ -149,7 +175,97 @@ def check_state(op, fault, second, sc, target, before, report, res, rec_events, 
     return out
 
 
+def evaluate_concurrent(case):
+    op, tier = case["op"], case.get("tier", "quick")
+    viol = []
+    reached = []
+    evals = 0
+    holds = 0
+    with C.Scratch() as sc:
+        cmd, target = op_args(op, sc, case)
+        emulate = op == "dedupe_emulated"
+        roots = [sc.tree] + ([target] if target else [])
+
+        def rebuild():
+            C.rmtree(sc.tree)
+            os.makedirs(sc.tree)
+            if target:
+                C.rmtree(target)
+            C.make_tree(sc.tree, CONC_TREE)
+        try:
+            rebuild()
+            report = D.make_report(sc, [], ["r"])
+            args = list(D.OPS[cmd]) + ([target] if target else [])
+            rec = S.run_with_shim(sc, args, roots, "m", stdin=report, emulate_clone=emulate, env_extra={"RAYON_NUM_THREADS": "1"})
+            seq = {t: [e for e in rec["events"] if t in e.path or t in e.path2] for t in CONC_TAGS}
+            if min(len(v) for v in seq.values()) < (1 if cmd == "remove" and False else 2):
+                raise C.MachineryError("per-file histories too short: %s" % {t: len(v) for t, v in seq.items()})
+            errnos = ["ENOSPC", "EIO"] if tier == "quick" else ["ENOSPC", "EIO", "EXDEV", "EPERM", "EOPNOTSUPP"]
+            pairs = [tuple(case["pair"])]
+            plan = []
+            for f, g in pairs:
+                if len(seq[f]) > 8:
+                    raise C.MachineryError("history of %s has %d steps, only 8 are enumerated" % (f, len(seq[f])))
+                for jh in range(len(seq[f])):
+                    if jh != case["jh"]:
+                        continue
+                    plan.append((f, jh, None, None, None, False))            # suspended worker, no fault
+                    for jf in range(len(seq[g])):
+                        for e in errnos:
+                            for persist in ((True,) if (tier == "quick" and e == "ENOSPC") else (False,) if tier == "quick" else (False, True)):
+                                plan.append((f, jh, g, jf, e, persist))
+            if case.get("only"):
+                plan = [tuple(case["only"])]
+            env0 = {"RAYON_NUM_THREADS": case["threads"]}
+            for (f, jh, g, jf, e, persist) in plan:
+                rebuild()
+                before = C.inventory(sc.tree)
+                env = dict(env0, FCSHIM_THOLD="%s:%d:100:500" % (f, jh))
+                call = "none"
+                if g is not None:
+                    env["FCSHIM_TFAIL"] = "%s:%d:%d%s" % (g, jf, S.ERRNO[e], ":persist" if persist else "")
+                    call = seq[g][jf].call
+                    if S.impossible_fault(seq[g], jf, e):
+                        continue
+                res = S.run_with_shim(sc, args, roots, "m", stdin=report, emulate_clone=emulate, env_extra=env)
+                evals += 1
+                held = "#HOLD" in open(os.path.join(sc.root, sorted(x for x in os.listdir(sc.root) if x.startswith("shim."))[-1]),
+                                        errors="replace").read()
+                holds += 1 if held else 0
+                feat = {"op": op, "call": call, "fault": e or "none", "second_fault": False, "worker_threads": case["threads"],
+                        "suspended_worker": True, "fault_persists": bool(persist)}
+                ctx = "%s with %s workers; the worker of %s suspended after its step %d (%r); %s" % (
+                    op, case["threads"], f, jh, seq[f][jh], ("step %d of %s (%s) fails with %s%s" % (
+                        jf, g, call, e, " and so does every later " + call if persist else "")) if g else "no fault")
+                if res["timeout"]:
+                    viol.append(dict(feat, kind="hang", detail=ctx, replay_case=dict(case, only=[f, jh, g, jf, e, persist])))
+                    continue
+                if "panicked" in res["err"]:
+                    viol.append(dict(feat, kind="panic", detail="%s: %s" % (ctx, res["err"][-300:]),
+                                     replay_case=dict(case, only=[f, jh, g, jf, e, persist])))
+                reached.append(["concurrent", op, case["threads"], f, jh, g, jf, e, persist])
+                # a persisting failure of a call that roll-backs use too (rename, unlink) is "operation and roll-back fail"
+                second = bool(persist) and call in ("rename", "unlink")
+                probs = check_state(cmd if not op.startswith("dedupe") and not op.startswith("move") else op, e or "none",
+                                    second, sc, target, before, report, res, rec["events"], 0)
+                if g is None and not probs:
+                    m = D.parse_summary(res["err"])
+                    if op != "dedupe_emulated" and (m is None or m[0] != 3):
+                        probs.append(("count_mismatch", "no fault at all, yet the summary is %s" % (m,)))
+                for kind, detail in probs:
+                    viol.append(dict(feat, kind=kind, detail="%s: %s" % (ctx, detail),
+                                     replay_case=dict(case, only=[f, jh, g, jf, e, persist])))
+        finally:
+            if target:
+                C.rmtree(target)
+    return {"violations": viol, "evaluations": evals, "nontrivial": reached or None, "outcome": "concurrent_explored" if reached else "concurrent_beyond_history",
+            "counters": {"suspended_worker_runs": holds},
+            "sample": {"concurrent": op, "threads": case["threads"], "per_file_steps": {t: [e.call for e in v] for t, v in seq.items()}}}
+
+
 def evaluate(case):
+    if case.get("kind") == "concurrent":
+        return evaluate_concurrent(case)
     if case["op"] == "move_known_mount":
         if not C.can_loop_mount():
             return {"violations": [], "nontrivial": None, "outcome": "skipped_no_loop_mount", "evaluations": 1}
@@ -256,4 +372,6 @@ def finish(stats, tier):
     out = []
     if c.get("events_in_histories", 0) < 3 * 24:
         out.append("histories shorter than 3 mutating events per op on average")
+    if not c.get("suspended_worker_runs"):
+        out.append("no multi-threaded run in which a worker was actually suspended between two of its steps")
     return out
